@@ -17,6 +17,17 @@ func (r *vRunner) extraOp(o vOp) bool {
 //go:noinline
 func vHelperUtilFile(f func()) { f() }
 
+// the same leaf as a REAL call (used once, to calibrate the probe)
+//
+//go:noinline
+func vLeafUtilReal(c *Config, t *vT, standalone bool) {
+	if standalone {
+		c.MatchStandaloneSnapshot(t, "v")
+	} else {
+		c.MatchSnapshot(t, "v")
+	}
+}
+
 //go:noinline
 func vLeafUtil(c *Config, name string, standalone bool) (string, string, []VFrame) {
 	return VProbeExported(c, name, standalone)
